@@ -128,6 +128,7 @@ def one(run, rng):
     if C.has_dup_labels(table):
         return
     table["index"] = None            # row positions are the identity on both backends
+    verdict_only = False
     present = {c["name"]: c for c in table["columns"]}
     for fs in spec["columns"]:
         col = present.get(fs["name"])
@@ -152,8 +153,10 @@ def one(run, rng):
             run.count("undecided:empty_or_all_null_foreign_column")
             return
         if col is not None and fs["unique"] and sum(1 for x in col["values"] if x is None) >= 2:
-            run.count("undecided:two_nulls_in_unique_column")
-            return
+            # the docs do not say whether nulls are duplicates of each other, but
+            # the two backends must still agree: verdicts are compared, cells not
+            run.count("two_nulls_in_unique_column:verdict_only")
+            verdict_only = True
     if spec.get("unique"):
         for n in spec["unique"]:
             col = present.get(n)
@@ -195,6 +198,8 @@ def one(run, rng):
         run.violation("both-backends-disagree-with-documented-semantics",
                       C.brief(spec, table, {"model_accept": v.accept, "model_reasons": v.reasons(),
                                             "pandas_reasons": o_pd.reasons()}), None)
+        return
+    if verdict_only:
         return
     if not o_pd.accepted:
         r1, f1, d1, c1 = cells_pd(o_pd)
